@@ -15,6 +15,7 @@ def jobs(ctx):
     out.append(Job(REL, PKG, H, "VerifC23History", {"steps": 1, "utf16": 1}, flags=FL, tag="definition after a non-ASCII character", cost=5,
                    only_kf="byte-columns-instead-of-utf16", kf_ids=["location-delimits-the-identifier-in-utf16-units"]))
     out.append(Job(REL, PKG, H, "VerifC23History", {"steps": 1, "utf16": 0}, flags=FL, tag="history twin", twin=True))
+    out.append(Job(REL, PKG, H, "VerifC23Scripted", {}, flags=FL, tag="scripted histories (definition / change / definition; multi-line diagnostics)", cost=30))
     return out
 
 
@@ -27,7 +28,7 @@ def describe(ctx):
                        "involved): no panic, each open/change publishes exactly one diagnostics message carrying that message's version and URI, diagnostic ranges name existing lines "
                        "and stay inside the line counted in UTF-16 units, definition fails on closed documents and otherwise answers from the latest content with locations that "
                        "delimit the identifier.",
-        "bounds": {"resolvePosition": "documents of <=4 (6) bytes, line<=3, character<=5", "histories": "<=2 (3) messages, 2 documents, 5 texts"},
+        "bounds": {"resolvePosition": "documents of <=4 (6) bytes, line<=3, character<=5", "histories": "<=2 (3) messages, 2 documents, 5 texts; scripted: open, optional definition, change or re-open with two declarations swapped, definition (17 paths); one document with LALR conflicts on rules written over two lines"},
         "outside": ["JSON-RPC framing and the goroutine schedule of the asynchronous handler chain (the executor has no threads): the 'schedules' part of the quantifier is not addressed",
                     "arbitrary document contents in histories"],
         "trusted": ["go/ssa", "symgo executor (zap logger calls are interpreted)", "z3", "harness UTF-8/UTF-16 reference"],
